@@ -158,7 +158,7 @@ class ModHash(Comp):
         for ms in fixed_sets():
             for opts in (NO_YL, 0):
                 L.append(line_of("modhash", opts, ms))
-        for _ in range(self.n(tier, 2000, 40000, scale)):
+        for _ in range(self.n(tier, 1200, 40000, scale)):
             ms = gen_set(rng)
             opts = rng.choice([NO_YL, NO_YL, 0, NO_YL | EXPLICIT])
             L.append(line_of("modhash", opts, ms))
@@ -543,11 +543,11 @@ class YlRoundTrip(Comp):
         fs = fixed_sets()
         L.append("\t".join(["ylrt", "0", "P:1:*"] + [enc_mod(m) for m in fs[1]]))
         L.append("\t".join(["ylrt", "0", "P:1:*", "P:0:-"] + [enc_mod(m) for m in fs[0]]))
-        for _ in range(self.n(tier, 200, 8000, scale)):
+        for _ in range(self.n(tier, 150, 8000, scale)):
             L.append(line_of("ylrt", 0, add_feature_deps(rng, gen_set(rng), 0.2)))
-        for _ in range(self.n(tier, 100, 4000, scale)):
+        for _ in range(self.n(tier, 80, 4000, scale)):
             L.append(line_of("ylrt", 0, gen_multirev(rng)))
-        for _ in range(self.n(tier, 250, 8000, scale)):
+        for _ in range(self.n(tier, 200, 8000, scale)):
             ms = gen_multirev(rng) if rng.random() < 0.25 else add_feature_deps(rng, gen_set(rng), 0.2)
             L.append("\t".join(["ylrt", "0"] + pre_ops(rng, ms) + [enc_mod(m) for m in ms]))
         return L
